@@ -57,6 +57,18 @@ Record scfg := {
   s_filter : option (list bytes)
 }.
 
+(** Non-finite float64 measurements (+Inf, -Inf, NaN) have no value in Z: they are represented by
+    integers of magnitude >= 2^64, outside every int64 / exactly representable sum the harness
+    produces (+Inf = 2^70, -Inf = 2^80, NaN = 2^90, all positive so that they never cancel).  Sums that
+    contain one are "poisoned" (again >= 2^64); the observation side maps every non-finite float to 2^70
+    and such values are compared only for being non-finite (Spec.point_eqb_gen). *)
+Definition is_nf (v : Z) : bool := (2 ^ 64 <=? Z.abs v)%Z.
+
+(** Measurements an aggregator discards: the exponential histogram ignores NaN and the infinities
+    (exponential_histogram.go, expoHistogram.measure); every other aggregator records them. *)
+Definition ignores (k : akind) (v : Z) : bool :=
+  match k with AKHist _ true => is_nf v | _ => false end.
+
 (** Does a collection forget the attribute sets held?  Synchronous aggregators:
     only with delta temporality; precomputed (observable) ones: always. *)
 Definition resets (c : scfg) : bool :=
